@@ -42,53 +42,6 @@ theorem owner_unique (s : St) (prog : List (Inj × Op)) :
         e1.owner = e2.owner → e1.owner.unique = true → e1.id = e2.id) :=
   ⟨(runOps s prog).l.2.id.2, (runOps s prog).l.2.uniq⟩
 
-/-- closing a single-valued libuv field removes exactly the descriptor it holds -/
-theorem closeOwner_led (l : Ledger) (h : LInv l) (o : Owner) (hok : (Prim.closeOwner o false).ok = true)
-    (hu : o.unique = true) : (exec1 l (.closeOwner o false)).led = l.led.filter (fun e => decide (e.owner ≠ o)) := by
-  unfold exec1
-  rw [if_pos hok]
-  simp only [exec1raw]
-  split
-  · rename_i hf
-    symm
-    rw [List.filter_eq_self]
-    intro e he
-    have := List.find?_eq_none.mp hf e he
-    simpa using this
-  · rename_i em hf
-    obtain ⟨hem, ho⟩ := find?_owner hf
-    simp only [Bool.false_and, Bool.false_eq_true, if_false]
-    apply List.filter_congr
-    intro e he
-    by_cases hc : e.owner = o
-    · have : e.id = em.id := h.uniq e he em hem (hc.trans ho.symm) (hc ▸ hu)
-      simp [hc, this]
-    · have : e.id ≠ em.id := fun hid => hc ((h.id.2 e he em hem hid) ▸ ho)
-      simp [hc, this]
-
-def loopClosePrims : List Prim :=
-  [.closeOwner (.loop .sig0) false, .closeOwner (.loop .sig1) false, .closeOwner (.loop .ring) false,
-   .closeOwner (.loop .inotify) false, .closeOwner (.loop .async) false,
-   .closeOwner (.loop .emfile) false, .closeOwner (.loop .backend) false]
-
-theorem loopClose_led (l : Ledger) (h : LInv l) :
-    ∀ e ∈ (exec l loopClosePrims).led, e ∈ l.led ∧ ∀ f, e.owner ≠ .loop f := by
-  intro e he
-  simp only [exec, loopClosePrims, List.foldl] at he
-  have h1 := linv_exec1 l (.closeOwner (.loop .sig0) false) h
-  have h2 := linv_exec1 _ (.closeOwner (.loop .sig1) false) h1
-  have h3 := linv_exec1 _ (.closeOwner (.loop .ring) false) h2
-  have h4 := linv_exec1 _ (.closeOwner (.loop .inotify) false) h3
-  have h5 := linv_exec1 _ (.closeOwner (.loop .async) false) h4
-  have h6 := linv_exec1 _ (.closeOwner (.loop .emfile) false) h5
-  rw [closeOwner_led _ h6 _ rfl rfl, closeOwner_led _ h5 _ rfl rfl, closeOwner_led _ h4 _ rfl rfl,
-      closeOwner_led _ h3 _ rfl rfl, closeOwner_led _ h2 _ rfl rfl, closeOwner_led _ h1 _ rfl rfl,
-      closeOwner_led _ h _ rfl rfl] at he
-  simp only [List.mem_filter, decide_eq_true_eq] at he
-  refine ⟨he.1.1.1.1.1.1.1, ?_⟩
-  intro f
-  cases f <;> simp_all
-
 /-- the full leak-freedom claim of the property (NOT proved in full, see `no_leak_partial`) -/
 def no_leak_statement : Prop :=
   ∀ (prog : List (Inj × Op)) (inj : Inj),
